@@ -98,6 +98,8 @@ pub struct Case {
     /// `Clone::clone` of an element is a scheduling point of its own
     pub clonepoint: bool,
     pub rawskip: bool,
+    /// `reenter k`: the k-th call of the wrapped iterator's `next()` queries the concurrent iterator around it
+    pub reenter: Option<usize>,
     /// `zstiter`: the wrapped iterator is a zero-sized type (kind iter)
     pub zstiter: bool,
     /// `relocate k`: before the k-th operation of thread 0 (single-thread cases) the iterator value is moved to another address
@@ -399,6 +401,7 @@ struct Partial {
     inpanic: Vec<usize>,
     clonepoint: bool,
     rawskip: bool,
+    reenter: Option<usize>,
     zstiter: bool,
     relocate: Option<usize>,
     clonefrom: bool,
@@ -461,6 +464,7 @@ fn finish(p: Partial) -> Result<Case, String> {
         inpanic: p.inpanic,
         clonepoint: p.clonepoint,
         rawskip: p.rawskip,
+        reenter: p.reenter,
         zstiter: p.zstiter,
         relocate: p.relocate,
         clonefrom: p.clonefrom,
@@ -547,6 +551,12 @@ pub fn parse_cases(text: &str) -> Result<Vec<Case>, String> {
             }
             "rawskip" => {
                 p.rawskip = true;
+            }
+            "reenter" => {
+                let k = toks
+                    .get(1)
+                    .ok_or_else(|| format!("line {ln}: reenter <k>"))?;
+                p.reenter = Some(num::<usize>(k, "reenter", ln)?);
             }
             "zstiter" => {
                 p.zstiter = true;
